@@ -78,6 +78,11 @@ func (e *Enc) callSiteClauses(fr *Frame, v *ssa.Call, cc *ssa.CallCommon, st *St
 	if callee := cc.StaticCallee(); callee != nil {
 		long = shortFuncName(callee.String())
 	}
+	if cc.IsInvoke() {
+		// interface method: "GetModule" or "py.Context.GetModule"; arg(0) is the receiver
+		name = cc.Method.Name()
+		long = shortFuncName(ifaceMethodKey(cc))
+	}
 	for _, cs := range fr.con.CallSites {
 		if cs.Callee != name && cs.Callee != long {
 			continue
@@ -753,6 +758,16 @@ func (e *Enc) loopEnv(fr *Frame, h *ssa.BasicBlock, st *State, edgeFrom *ssa.Bas
 	env := &CEnv{e: e, vars: map[string]TT{}, cur: st, old: old, pkg: pkg, guard: tTrue}
 	if lc := fr.hdrEnv[h]; lc != nil {
 		env.pre = lc.preSt
+	}
+	for name, al := range fr.cellNames {
+		a, ok := fr.addrs[al]
+		if !ok || a.kind != ACell {
+			continue // not encoded yet (allocated after this point)
+		}
+		if env.cells == nil {
+			env.cells = map[string]cellVar{}
+		}
+		env.cells[name] = cellVar{a.key, a.ref, a.sort, a.typ}
 	}
 	rangeOf := func(hb *ssa.BasicBlock) bool {
 		for _, ins := range hb.Instrs {
